@@ -579,6 +579,8 @@ def run(ctx):
     n2, t2 = disk_part(ctx, batch, N)
     n3, t3 = program_part(ctx)
     n4 = same_definition_part(ctx) + container_part(ctx) + same_gate_function_part(ctx) + mutating_args_part(ctx) + factory_closures_part(ctx)
+    from harness.props.c14 import cached_interrupt_part
+    n4 += cached_interrupt_part(ctx)      # cache=True interrupts: every run of a pause/answer history equals the uncached run
     res = batch.run()
     if res["error"]:
         ctx.violation("harness", res["error"])
@@ -590,7 +592,7 @@ def run(ctx):
              "complete sets, sets torn after the first write, and each corruption class on stored entries, every get compared with the disk "
              "model, pickle.loads spied; (C) dag/gated/loop/emit programs with random cacheable nodes and gates, 2-4 runs sharing one backend "
              "(unbounded / LRU 1-3 / disk with corruption between runs) vs uncached runs; (D) two cached nodes of one function with different "
-             "outputs or mirrored renames. non-trivial = an LRU sequence exceeding capacity, a disk get after a fault, a repeated cached run",
+             "outputs or mirrored renames; (E) chains with a cache=True interrupt, histories answered with different responses. non-trivial = an LRU sequence exceeding capacity, a disk get after a fault, a repeated cached run",
         distribution={"lru_sequences": n1, "disk_ops": n2, "program_runs": n3, "same_definition_cases": n4},
         samples=[{"lru": "set/get sequences over k0..k3"}, {"disk": "set, torn, flip, trunc, ptype, sig, sigtype, dropsig, droppayload, get"}],
         traces_validated_against_impl=n1 + n2, disagreements_checked=res["n"])
